@@ -1,5 +1,6 @@
 // Code-level tie of the zebra line smoothers (C06, C07): what the real classes STORE and COMPUTE, piece by piece.
 //   ./h_smcode smooth <cases> <max_nr> <max_nt>      SmootherGive / SmootherTake
+//   ./h_smcode exsmooth <cases> <max_nr> <max_nt>    ExtrapolatedSmootherGive / ExtrapolatedSmootherTake (record XC, see mode_exsmooth)
 // For every random problem (same generator families as h_ops smooth) and strategy x thread count the record carries
 //   - the line matrices right after construction (before the first solve factorises them in place): main / sub / corner of every
 //     circle and radial SymmetricTridiagonalSolver, and the CSR rows of the innermost circle's matrix in storage order,
@@ -136,12 +137,87 @@ static int mode_smooth(int cases, int max_nr, int max_nt)
     return 0;
 }
 
+// ---------------------------------------------------------------------------------------------- extrapolated smoother
+// Record XC: the four solver vectors in VECTOR order (index k), so that the driver also checks which line sits at which index
+// and the dimension of every element (circle_diagonal_solver_[0] stays default-constructed):
+//   ct = circle_tridiagonal_solver_[k]  "main/sub/corner" ; ...      cd = circle_diagonal_solver_[k]  diag ; ...  ("-" = dimension 0)
+//   rt = radial_tridiagonal_solver_[k]                                rd = radial_diagonal_solver_[k]
+//   inner = CSR rows of inner_boundary_circle_matrix_ in storage order
+//   temp (take only) = temp after applyAscOrthoCircleSection(i) for every circle and applyAscOrthoRadialSection(j) for every
+//   radial line on the INPUT iterate;  out = the iterate after one extrapolatedSmoothing() sweep.
+static std::string diag_dump(const DiagonalSolver<double>& D)
+{
+    if (D.rows() == 0) return "-";
+    std::vector<double> d(D.rows());
+    for (int k = 0; k < D.rows(); k++) d[k] = D.diagonal(k);
+    return hexvec(d);
+}
+template <class S> static void ex_matrices(const S& sm, std::string& ct, std::string& cd, std::string& rt, std::string& rd, std::string& inner)
+{
+    for (size_t k = 0; k < sm.circle_tridiagonal_solver_.size(); k++) { if (k) ct += ';'; ct += tri_dump(sm.circle_tridiagonal_solver_[k]); }
+    for (size_t k = 0; k < sm.circle_diagonal_solver_.size(); k++) { if (k) cd += ';'; cd += diag_dump(sm.circle_diagonal_solver_[k]); }
+    for (size_t k = 0; k < sm.radial_tridiagonal_solver_.size(); k++) { if (k) rt += ';'; rt += tri_dump(sm.radial_tridiagonal_solver_[k]); }
+    for (size_t k = 0; k < sm.radial_diagonal_solver_.size(); k++) { if (k) rd += ';'; rd += diag_dump(sm.radial_diagonal_solver_[k]); }
+    inner = csr_rows(sm.inner_boundary_circle_matrix_);
+}
+
+static int mode_exsmooth(int cases, int max_nr, int max_nt)
+{
+    Rng rng(seed_from_env());
+    for (int c = 0; c < cases; c++) {
+        int nr = pick_nr(rng, max_nr), nt = pick_nt(rng, max_nt);
+        if (nt % 4 != 0) nt = 8;
+        if (nr < 7) nr = 7;
+        Problem p = make_problem(rng, nr, nt);
+        // explicit splits give both parities of the number of circles; keep >= 3 circles and >= 3 radial nodes
+        std::optional<double> split = std::nullopt;
+        if (rng.coin(0.6)) { int nc = rng.range(3, nr - 3); if (nc >= 3) split = 0.5 * (p.radii[nc - 1] + p.radii[nc]); }
+        Chain ch = make_chain(p, 1, true, true, split);
+        Level& L = *ch.levels[0];
+        const PolarGrid& g = L.grid();
+        if (g.numberSmootherCircles() < 3 || g.lengthSmootherRadial() < 3) continue;
+        emit_level("LV", p, g, p.dirbc);
+        int N = g.numberOfNodes(), nc = g.numberSmootherCircles();
+        std::vector<double> x = random_field(rng, N), f = random_field(rng, N);
+        for (int strat = 0; strat < 2; strat++)
+            for (int threads : {1, 4}) {
+                Vector<double> xv = from_rowmajor(g, x), fv = from_rowmajor(g, f), tmp(N);
+                std::string ct, cd, rt, rd, inner, tc = "-";
+                omp_set_num_threads(threads);
+                if (strat == 0) {
+                    ExtrapolatedSmootherGive sm(g, L.levelCache(), *p.geo, *p.coef, p.dirbc, threads);
+                    ex_matrices(sm, ct, cd, rt, rd, inner);
+                    for (int i = 0; i < N; i++) tmp[i] = rng.uniform(-1e3, 1e3);
+                    sm.extrapolatedSmoothing(xv, fv, tmp);
+                }
+                else {
+                    ExtrapolatedSmootherTake sm(g, L.levelCache(), *p.geo, *p.coef, p.dirbc, threads);
+                    ex_matrices(sm, ct, cd, rt, rd, inner);
+                    // temp = rhs - A_sc^ortho x on the input iterate, line by line (scratch holds garbage before)
+                    for (int i = 0; i < N; i++) tmp[i] = rng.uniform(-1e3, 1e3);
+                    for (int i = 0; i < nc; i++) sm.applyAscOrthoCircleSection(i, (nc - 1 - i) % 2 == 0 ? SmootherColor::Black : SmootherColor::White, xv, fv, tmp);
+                    for (int j = 0; j < g.ntheta(); j++) sm.applyAscOrthoRadialSection(j, j % 2 == 0 ? SmootherColor::Black : SmootherColor::White, xv, fv, tmp);
+                    tc = hexvec(to_rowmajor(g, tmp));
+                    for (int i = 0; i < N; i++) tmp[i] = rng.uniform(-1e3, 1e3);
+                    sm.extrapolatedSmoothing(xv, fv, tmp);
+                }
+                auto dash = [](const std::string& s) { return s.empty() ? std::string("-") : s; };
+                printf("XC strat=%s threads=%d x=%s f=%s ct=%s cd=%s rt=%s rd=%s inner=%s temp=%s out=%s\n", strat == 0 ? "give" : "take", threads, hexvec(x).c_str(),
+                       hexvec(f).c_str(), dash(ct).c_str(), dash(cd).c_str(), dash(rt).c_str(), dash(rd).c_str(), dash(inner).c_str(), tc.c_str(),
+                       hexvec(to_rowmajor(g, xv)).c_str());
+            }
+    }
+    printf("end\n");
+    return 0;
+}
+
 int main(int argc, char** argv)
 {
     std::string mode = argc > 1 ? argv[1] : "";
     printf("seed %llu\n", (unsigned long long)seed_from_env());
     int a = argc > 2 ? atoi(argv[2]) : 20, b = argc > 3 ? atoi(argv[3]) : 13, c = argc > 4 ? atoi(argv[4]) : 16;
     if (mode == "smooth") return mode_smooth(a, b, c);
-    fprintf(stderr, "usage: h_smcode smooth <cases> <max_nr> <max_nt>\n");
+    if (mode == "exsmooth") return mode_exsmooth(a, b, c);
+    fprintf(stderr, "usage: h_smcode smooth|exsmooth <cases> <max_nr> <max_nt>\n");
     return 2;
 }
